@@ -1,7 +1,7 @@
 (* C03 -- the rainflow result depends only on the reversal sequence; symmetries.
    Model: PL.Rainflow.Model (tied to the code by correspondence).  Only statements, `exact`, Print Assumptions. *)
 From Coq Require Import ZArith List Bool.
-From PL Require Import Rainflow.Model Rainflow.Eqb Rainflow.Spec Rainflow.SpecThm Rainflow.Symm Rainflow.Symm2 Rainflow.Bounded3.
+From PL Require Import Rainflow.Model Rainflow.Eqb Rainflow.Spec Rainflow.SpecThm Rainflow.Symm Rainflow.Symm2 Rainflow.Bounded3 Rainflow.NaN.
 Import ListNotations.
 Open Scope Z_scope.
 
@@ -51,6 +51,14 @@ Theorem refine_insensitive_fkm l1 u y v l2 : (u <= y <= v \/ v <= y <= u) ->
   c = c' /\ r = r'.
 Proof. exact (Symm2.runF_insert_values l1 u y v l2). Qed.
 
+(* NaN samples (anywhere): turning-point values are those of the NaN-free signal, and every reported index
+   addresses, in the ORIGINAL signal, a non-NaN sample holding the reported value (unbounded).
+   find_turns_nan models clean_nans + the index correction loop of general.find_turns literally. *)
+Theorem nan_drop_index s :
+  map snd (find_turns_nan s) = map snd (find_turns (clean s)) /\
+  Forall (fun iv => nth_error s (fst iv) = Some (Some (snd iv))) (find_turns_nan s).
+Proof. exact (NaN.nan_drop_index s). Qed.
+
 (* three-point detector (position-comparing kernel): bounded instances, the bound is in the statement *)
 Theorem threepoint_symmetries_bounded s :
   (1 <= length s <= 7)%nat -> Forall (fun x => 0 <= x <= 3) s ->
@@ -76,5 +84,6 @@ Print Assumptions fkm_scale.
 Print Assumptions reversal_values_insert.
 Print Assumptions refine_insensitive_4pt.
 Print Assumptions refine_insensitive_fkm.
+Print Assumptions nan_drop_index.
 Print Assumptions threepoint_symmetries_bounded.
 Print Assumptions threepoint_refine_bounded.
